@@ -235,6 +235,19 @@ def run():
         if not verdicts[str(i)]:
             ck.reject(f"C17:float:{'exp' if 'e' in s.lower() else 'plain'}", f"{s} evaluates to {out[str(i)]['end']}, which is not the double nearest to the written decimal",
                       {"src": s, "observed": out[str(i)]["end"]})
+    # exponent forms whose value does not depend on the exponent's size: a zero mantissa denotes 0 (also when the exponent itself is
+    # astronomically large or small), and a non-zero mantissa with such an exponent cannot be represented
+    zexp = [("0e99999999", "val:0"), ("0e99999999999999999999", "val:0"), ("00e5", "val:0"), ("0e-99999999999999999999", "val:0"), ("0_0e7", "val:0"), ("0e0", "val:0"),
+            ("x := 0e4096; x + 1", "val:1"), ("[0e300, 0E300][1]", "val:0"), ("1e99999999999999999999", None), ("5e19", None), ("9e18", "val:9000000000000000000")]
+    zout = run_cases([{"id": f"z{k}", "src": src, "deadline_ms": 8000} for k, (src, _) in enumerate(zexp)], label="C17 zero-mantissa exponents")
+    for k, (src, want) in enumerate(zexp):
+        got = zout[f"z{k}"]["end"]
+        if got.startswith(("discarded:", "fuel:")):
+            continue
+        if (want is None and got.startswith("val:")) or (want is not None and got != want):
+            ck.reject("C17:int:exp:extreme-exponent", f"{src!r} evaluates to {got[:120]}; " + (f"it denotes {want[4:]}" if want else "it cannot be represented and must be rejected"),
+                      {"src": src, "observed": got[:300], "expected": want or "rejected"})
+    total += len(zexp)
     # a written minus sign: `-<literal>` is the negation of the literal's value, the sign of a zero included (-0.0 is not 0.0)
     zeros = ["0.0", ".0", "0.0e3", "0.000_0", "0.0e-5", "00.00"]
     signed = zeros + lits[:60]
